@@ -235,6 +235,20 @@ CLAIMED['C18'] = dict(
     note=NOTE_COMMON + 'FIPS-197, xoroshiro128+, Trivium and the LFSR are transcribed by hand in the harness (AES also in Lean).',
     technique='Lean 4 proof by kernel evaluation over complete tables (decide +kernel, no axioms) + reference-implementation oracle')
 
+CLAIMED['C19'] = dict(
+    text='PARTIAL. Lean theorems, for all shapes and widths: the bit offset of element (I,J) given by the constructor from '
+         'a WireVector equals the one given by to_wirevector (conversion round trip is the identity on layout); C-order '
+         'and F-order flat indices are bijections with the div/mod inverses used by flatten/reshape/put; a reshape lands '
+         'inside the new shape; the declared widths of +, element-wise/scalar * and @ (n*n*(ba+bb) bits) hold the exact '
+         'value. Oracle: every Matrix operation (access/slicing, +, saturating -, *, scalar *, @, **, transpose, '
+         'reshape/flatten/put in both orders, sum/min/max/argmax along each axis, dot incl. the vector inner-product rule, '
+         'hstack/vstack/concatenate, copy, setitem, conversion round trip, list_to_int) on shapes up to 4x4 with mixed '
+         'element widths 1..8 against integer-matrix arithmetic modulo 2^bits of the result, comparing shape and bits as '
+         'well; + * @ must be exact. The operations themselves have no Lean model.',
+    design='4 C19',
+    note=NOTE_COMMON + 'Matrix element circuits are evaluated by FastSimulation (tied to the semantics by C02).',
+    technique='Lean 4 proof (index and width arithmetic) + integer-matrix oracle over a shape/width grid')
+
 NOT_YET = {}
 
 
